@@ -992,7 +992,7 @@ class Patron(object):
                 secured = False # non tls socket connection
                 defaultPort = 80
             hostname, port = httping.normalizeHostPort(hostname, port=port, defaultPort=defaultPort)
-            path = splits.path
+            path = splits.path or '/'  # location without path such as http://host:port
             query = splits.query
             fragment = splits.fragment
 
